@@ -270,7 +270,15 @@ def r2_node_ops(P, rep, ctx):
     is_ds = f.tests(f"isinstance(self[{dp}], MetadorDataset)")
     # the node below which links are repaired: the dataset's metadata dir, or the moved group itself
     fm = f.call_sites("__l.find_missing(__b)")
-    have_meta = [e for n_, c, b in fm for e in f.tests(f"{RAWG[0]}.get(__k)", f"__k in {RAWG[0]}")]
+    # "no metadata there": only a test on the very node handed to find_missing (or on its key in the raw container) counts
+    have_meta = []
+    for n_, c, b in fm:
+        A = f.x_at(n_, b["__b"])
+        mk = M.match(f"{RAWG[0]}.get(__k)", M.pat(A)) or M.match(f"{RAWG[0]}[__k]", M.pat(A))
+        alts = [A, f"{A} is not None"] + ([f"{norm(mk['__k'])} in {RAWG[0]}"] if mk is not None else [])
+        for t in g.nodes:
+            if t.kind == "test" and f.x_at(t.idx, t.exprs[0]) in alts:
+                have_meta.append((t.idx, "T"))
     ok = bool(raw_move) and bool(rep_calls) and bool(fm) and f.all_hit_before(rep_calls, nodes=raw_move) and f.all_hit_before(rep_calls, nodes=[i for i, c, b in fm]) and bool(have_meta) and f.hit_before(g.exit, nodes=rep_calls, edges=f.neg(have_meta))
     rep.check(ok, "C06.R2", fi.qual, "after the raw move the TOC links of all carried metadata are repaired whenever metadata exists", fi.loc(), construct="relink after move", message="MetadorGroup.move can return without repairing the TOC links of moved metadata")
     upd = [c for i, c, b in reps]
@@ -300,6 +308,12 @@ def r2_node_ops(P, rep, ctx):
     # group source: without_meta -> destroyed (no unlink); otherwise -> re-registered
     ok = ok and f.all_hit_before(dest, edges=wm) and f.all_hit_before(dest, edges=f.neg(src_ds)) and f.hit_before(g.exit, nodes=dest, edges=src_ds + f.neg(wm)) and f.hit_before(g.exit, nodes=reps, edges=src_ds + wm)
     rep.check(ok, "C06.R2", fi.qual, "copying a group either registers the copied metadata (fresh uuids) or destroys it without unlinking", fi.loc(), construct="group metadata after copy", message="copy of a group leaves copied metadata objects unregistered (or registered twice)")
+    # argument validation precedes the raw copy: a call that is refused must not have copied anything (the copied metadata
+    # objects would carry the uuids of the originals without TOC links)
+    raw_eff = [i for i, c, b in f.call_sites(f"{RAWG[0]}.copy(___)")] + [i for i, c, b in f.call_sites(f"{RAWG[0]}.move(___)")]
+    late = [n.idx for n in g.nodes if n.kind == "stmt" and isinstance(n.stmt, ast.Raise) and not hasattr(n.stmt, "_mdsa_assert") and any(n.idx in g.reach([e_]) for e_ in raw_eff)]
+    rep.check(bool(raw_eff) and not late, "C06.R2", fi.qual, "every refusal of copy (unknown keyword, wrong source / destination kind) happens before the raw copy", fi.loc(g.nodes[late[0]].stmt) if late else fi.loc(), construct="refusals before the raw copy",
+              message=f"MetadorGroup.copy can raise ({norm(g.nodes[late[0]].stmt)[:70] if late else ''}) after the raw copy was made: the refused call leaves copied nodes whose metadata objects duplicate uuids and have no TOC link")
     rp = [c for c in local_calls(fi.node) if call_attr(c) == "repair_missing"]
     rep.check(all(kwarg(c, "update") is None or norm(kwarg(c, "update")) == "False" for c in rp) and len(rp) >= 1, "C06.R2", fi.qual, "copied objects get fresh uuids (no update=True)", fi.loc(), construct="repair after copy", message="copy re-links copied objects with update=True: two objects share one uuid")
     rmfi = P.func(f"{I}.TOCLinks.repair_missing")
